@@ -130,7 +130,93 @@ class VarIsPortName(py4hw.Logic):
         self.out.prepare(self.cnt)
 
 
-CLASSES = [GoodCounter, GoodMatch, GoodComb, AttrMismatch, TernarySeq, KeywordVar, VarIsPortName]
+class CombLocals(py4hw.Logic):
+    """combinational block: method-local temporaries, one of them reassigned, used in a condition and in both branches"""
+    expect = 'ok'
+
+    def __init__(self, parent, name, a, b, r):
+        super().__init__(parent, name)
+        self.a = self.addIn('a', a)
+        self.b = self.addIn('b', b)
+        self.r = self.addOut('r', r)
+
+    def propagate(self):
+        s = self.a.get() + self.b.get()
+        t = s >> 1
+        t = t ^ self.b.get()
+        if (t > s):
+            self.r.put(t - s)
+        else:
+            self.r.put(s)
+
+
+class CombInstVar(py4hw.Logic):
+    """combinational block: instance variables that __init__ does not initialise with an int literal (one not at all)"""
+    expect = 'ok'
+
+    def __init__(self, parent, name, a, b, r, k=3):
+        super().__init__(parent, name)
+        self.a = self.addIn('a', a)
+        self.b = self.addIn('b', b)
+        self.r = self.addOut('r', r)
+        self.k = k
+
+    def propagate(self):
+        self.tmp = self.a.get() & self.b.get()
+        self.r.put(self.tmp + self.k)
+
+
+class CombOneLocal(py4hw.Logic):
+    """the smallest case: one temporary"""
+    expect = 'ok'
+
+    def __init__(self, parent, name, a, b, r):
+        super().__init__(parent, name)
+        self.a = self.addIn('a', a)
+        self.b = self.addIn('b', b)
+        self.r = self.addOut('r', r)
+
+    def propagate(self):
+        s = self.a.get() + self.b.get()
+        self.r.put(s)
+
+
+class SeqLocals(py4hw.Logic):
+    """clocked control of CombLocals: the same temporaries in clock()"""
+    expect = 'ok'
+
+    def __init__(self, parent, name, a, b, r):
+        super().__init__(parent, name)
+        self.a = self.addIn('a', a)
+        self.b = self.addIn('b', b)
+        self.r = self.addOut('r', r)
+        self.acc = 0
+
+    def clock(self):
+        s = self.a.get() + self.b.get()
+        t = s >> 1
+        self.acc = self.acc + t
+        self.r.prepare(self.acc ^ s)
+
+
+class SeqInstVar(py4hw.Logic):
+    """clocked control of CombInstVar"""
+    expect = 'ok'
+
+    def __init__(self, parent, name, a, b, r, k=3):
+        super().__init__(parent, name)
+        self.a = self.addIn('a', a)
+        self.b = self.addIn('b', b)
+        self.r = self.addOut('r', r)
+        self.k = k
+
+    def clock(self):
+        self.tmp = self.a.get() & self.b.get()
+        self.r.prepare(self.tmp + self.k)
+
+
+CLASSES = [GoodCounter, GoodMatch, GoodComb, AttrMismatch, TernarySeq, KeywordVar, VarIsPortName,
+           CombLocals, CombInstVar, CombOneLocal, SeqLocals, SeqInstVar]
 
 
 def build(cls, w=8):
@@ -140,7 +226,7 @@ def build(cls, w=8):
         dut = cls(hw, 'dut', W('inc'), W('reset'), W('q', w))
     elif cls is GoodMatch:
         dut = cls(hw, 'dut', W('go'), W('q', 2))
-    elif cls is GoodComb:
+    elif cls in (GoodComb, CombLocals, CombInstVar, CombOneLocal, SeqLocals, SeqInstVar):
         dut = cls(hw, 'dut', W('a', w), W('b', w), W('r', w))
     else:
         dut = cls(hw, 'dut', W('a', w if cls in (AttrMismatch, TernarySeq) else 1), W('q', w))
